@@ -813,8 +813,9 @@ def mirror_cases(rnd, tier):
                 worst = max(worst, max_ulps(par[q] * Rm[q][::-1], R[q], scr))
             cfl = 0.3 if not implicit else 0.5
             nit = rnd.choice([1, 3, 6])
-            a = integrate(cls, m, disc, f, cfl, nit)
-            b = integrate(cls, mm, discm, fm_, cfl, nit)
+            dtl = (c % 5 == 4)          # one case in five with the local-time-step directive: every cell its own step, mirrored too
+            a = integrate(cls, m, disc, f, cfl, nit, dtlocal=dtl)
+            b = integrate(cls, mm, discm, fm_, cfl, nit, dtlocal=dtl)
             if blew_up(a, f) or blew_up(b, fm_):
                 recs.append(tok(mirror=worst, model=kind, flux=str(P["flux"]), recon=P["recon"], n=P["n"], integrator=cls,
                                 bcl=P["bcL"]["type"], bcr=P["bcR"]["type"], unstable=1))
